@@ -42,6 +42,8 @@ def plan(tier, seed):
     jobs = []
     curves = ["SECP112r1", "SECP128r1"] if q else ["SECP112r1", "SECP128r1", "NIST192p", "NIST256p"]
     pairs = [(k, a, b) for k, ops in (("gen", GEN_OPS), ("pub", PUB_OPS)) for a in ops for b in ops]
+    # a generator-type point that is ALSO unscaled (z != 1; direct construction): table construction and in-place rescaling on one object
+    pairs += [("genz", a, b) for a in ("mulk", "scale", "to_affine") for b in ("mulk", "scale", "to_affine", "mul_add_other")]
     for ci, cname in enumerate(curves):
         for pi in range(0, len(pairs), 3):
             jobs.append({"name": "pt_%s_%02d" % (cname, pi), "spec": {"kind": "points", "curve": cname, "pairs": pairs[pi : pi + 3], "step": (8 if q else 1) * (1 if ci < 1 else 2)}})
@@ -61,7 +63,7 @@ def plan(tier, seed):
 
 
 def mandatory_bins(tier):
-    b = ["points_trial", "preempt_in:_maybe_precompute", "preempt_in:scale", "shared_generator_fresh_table", "shared_public_point_unscaled", "op_a:" + "mulk", "op_b:verifies", "op_b:pickle",
+    b = ["points_trial", "preempt_in:_maybe_precompute", "preempt_in:scale", "shared_generator_fresh_table", "shared_public_point_unscaled", "shared_generator_type_point_unscaled", "op_a:" + "mulk", "op_b:verifies", "op_b:pickle",
          "lock_cfg:1R+1W", "lock_cfg:2R", "lock_cfg:2R+1W", "lock_cfg:1R+2W", "lock_cfg:1R+1W x2", "lock_complete_exploration", "two_readers_hold_together", "lock_random_line_schedules", "uncontrolled_stress", "edwards_generator_first_use_by_concurrent_threads"]
     if tier != "quick":
         b += ["lock_cfg:2R+2W", "lock_cfg:3R+1W"]
@@ -120,6 +122,8 @@ def run_points(ns, ctx, spec):
     def mk(kind):
         if kind == "gen":
             return PJ(curve, gx, gy, 1, n, generator=True)
+        if kind == "genz":
+            return PJ(curve, QX, QY, QZ, n, generator=True)
         return PJ(curve, QX, QY, QZ, n)
 
     def op(name, kind):
@@ -153,7 +157,7 @@ def run_points(ns, ctx, spec):
             fa, fb = op(an, kind), op(bn, kind)
             want_a = fa(mk(kind))
             want_b = fb(mk(kind))
-            ctx.bin("shared_generator_fresh_table" if kind == "gen" else "shared_public_point_unscaled")
+            ctx.bin({"gen": "shared_generator_fresh_table", "pub": "shared_public_point_unscaled", "genz": "shared_generator_type_point_unscaled"}[kind])
             ctx.bin("op_a:" + an)
             ctx.bin("op_b:" + bn)
             # how many LINE events does A produce?
@@ -174,7 +178,7 @@ def run_points(ns, ctx, spec):
             pre.mon.register_callback(4, pre.mon.events.LINE, probe)
             pre.run(lambda: fa(S), None, None)
             pre.mon.register_callback(4, pre.mon.events.LINE, orig)
-            ks = sorted({i for i in range(0, N, step)} | {i for i, f in enumerate(order) if f == "scale" and (kind == "pub" or step == 1)} | {i for i, f in enumerate(order) if f == "_maybe_precompute" and (step == 1 or i % (step // 2 + 1) == 0)})
+            ks = sorted({i for i in range(0, N, step)} | {i for i, f in enumerate(order) if f == "scale" and (kind in ("pub", "genz") or step == 1)} | {i for i, f in enumerate(order) if kind == "genz" and f in ("__mul__", "_mul_precompute") and i % 3 == 0} | {i for i, f in enumerate(order) if f == "_maybe_precompute" and (step == 1 or i % (step // 2 + 1) == 0)})
             for k in ks:
                 S = mk(kind)
                 ra, rb, where, cnt = pre.run(lambda: fa(S), lambda: fb(S), k)
@@ -192,8 +196,8 @@ def run_points(ns, ctx, spec):
                     ctx.violation("operation_concurrent_with_%s_returns_other_result:%s:%s" % (where[0].strip("_"), kind, bn), {"parked_in": where, "parked_op": an, "got": rb, "expected": want_b}, rp)
                 # the object left behind must still be the same group element
                 try:
-                    after = aff(S * 1) if kind == "pub" else aff(S * k3)
-                    want_after = (aff(mk(kind) * 1) if kind == "pub" else aff(mk(kind) * k3))
+                    after = aff(S * 1) if kind != "gen" else aff(S * k3)
+                    want_after = (aff(mk(kind) * 1) if kind != "gen" else aff(mk(kind) * k3))
                     if after != want_after:
                         ctx.violation("shared_object_damaged_after_concurrent_use:" + kind, {"parked_in": where, "op_a": an, "op_b": bn}, rp)
                 except Exception as e:
